@@ -52,6 +52,11 @@ pub struct Session {
     /// after all replies have arrived the client sends one more request (answered after 400 ms) and
     /// hangs up altogether - stdin and stdout - while the bridge waits for that reply
     pub hangup_while_waiting: bool,
+    /// (with upgrade) the service sends a greeting of its own right behind its upgrade reply
+    pub greet: bool,
+    /// (resolver mode, with upgrade) the upgrade goes to the raw greeter service, which sends its
+    /// upgrade reply and a greeting in one write
+    pub greet_one_write: bool,
 }
 
 fn slow_request(ms: u64) -> Value {
@@ -61,7 +66,7 @@ fn slow_request(ms: u64) -> Value {
 fn sess_json(s: &Session) -> Value {
     json!({"mode": format!("{:?}", s.mode), "requests": syms_json(&s.syms), "pipelined": s.pipelined,
         "upgrade_payload_hex": s.upgrade.as_ref().map(|p| p.iter().map(|b| format!("{:02x}", b)).collect::<String>()),
-        "payload_pipelined": s.payload_pipelined, "close_early": s.close_early, "spaced_service": s.spaced, "slow_tail": s.slow_tail, "hangup_while_waiting": s.hangup_while_waiting})
+        "payload_pipelined": s.payload_pipelined, "close_early": s.close_early, "spaced_service": s.spaced, "slow_tail": s.slow_tail, "hangup_while_waiting": s.hangup_while_waiting, "service_greets_after_upgrade": s.greet, "greeting_in_one_write_with_the_upgrade_reply": s.greet_one_write})
 }
 
 fn sess_from(v: &Value) -> Session {
@@ -81,6 +86,8 @@ fn sess_from(v: &Value) -> Session {
         spaced: v["spaced_service"].as_bool().unwrap_or(false),
         slow_tail: v["slow_tail"].as_bool().unwrap_or(false),
         hangup_while_waiting: v["hangup_while_waiting"].as_bool().unwrap_or(false),
+        greet: v["service_greets_after_upgrade"].as_bool().unwrap_or(false),
+        greet_one_write: v["greeting_in_one_write_with_the_upgrade_reply"].as_bool().unwrap_or(false),
     }
 }
 
@@ -88,6 +95,8 @@ pub struct World {
     _scratch: Scratch,
     pub s1: String,
     pub s2: String,
+    /// the raw greeter service (org.verif.greeter)
+    pub s3: String,
     pub resolver: String,
     _procs: Vec<Proc>,
 }
@@ -99,11 +108,13 @@ impl World {
         let s1 = scratch.unix_addr("s1.sock");
         let s2 = scratch.unix_addr("s2.sock");
         let resolver = scratch.unix_addr("res.sock");
-        let map = json!({"org.verif.test": s1, "org.verif": s2, "org.verif.test-2": s2, "org.verif.Test": s2}).to_string();
+        let s3 = scratch.unix_addr("s3.sock");
+        let map = json!({"org.verif.test": s1, "org.verif": s2, "org.verif.test-2": s2, "org.verif.Test": s2, "org.verif.greeter": s3}).to_string();
         let p1 = Proc::spawn(&svc, &[if spaced { "listen-spaced" } else { "listen" }, &s1], Some(&scratch.path.join("s1.sock")))?;
         let p2 = Proc::spawn(&svc, &["listen", &s2], Some(&scratch.path.join("s2.sock")))?;
         let p3 = Proc::spawn(&svc, &["resolver", &resolver, &map], Some(&scratch.path.join("res.sock")))?;
-        Some(World { _scratch: scratch, s1, s2, resolver, _procs: vec![p1, p2, p3] })
+        let p4 = Proc::spawn(&svc, &["listen-greeter", &s3], Some(&scratch.path.join("s3.sock")))?;
+        Some(World { _scratch: scratch, s1, s2, s3, resolver, _procs: vec![p1, p2, p3, p4] })
     }
 
     fn owner(&self, method: &str) -> Option<&str> {
@@ -111,13 +122,21 @@ impl World {
         match iface {
             "org.verif.test" => Some(&self.s1),
             "org.verif" | "org.verif.test-2" | "org.verif.Test" => Some(&self.s2),
+            "org.verif.greeter" => Some(&self.s3),
             _ => None,
         }
     }
 }
 
-fn upgrade_request(i: usize) -> Value {
-    request(Sym { kind: Kind::Upgrade, flag: Flag::None }, i)
+fn upgrade_request(i: usize, s: &Session) -> Value {
+    let mut r = request(Sym { kind: Kind::Upgrade, flag: Flag::None }, i);
+    if s.greet {
+        r["parameters"]["token"] = json!(format!("greet-{}", i));
+    }
+    if s.greet_one_write {
+        r["method"] = json!("org.verif.greeter.Upgrade");
+    }
+    r
 }
 
 /// one request on a fresh direct connection; returns the raw reply bytes
@@ -142,12 +161,17 @@ fn direct_one(addr: &str, req: &Value) -> Result<Vec<u8>, Fail> {
 pub fn reference(w: &World, s: &Session) -> Result<(Vec<u8>, Vec<u8>), Fail> {
     let mut reqs: Vec<Value> = s.syms.iter().enumerate().map(|(i, x)| request(*x, i)).collect();
     if s.upgrade.is_some() {
-        reqs.push(upgrade_request(reqs.len()));
+        reqs.push(upgrade_request(reqs.len(), s));
     }
     if s.slow_tail {
         reqs.push(slow_request(0));
     }
-    let echo: Vec<u8> = s.upgrade.as_ref().map(|p| p.iter().map(|b| b.to_ascii_uppercase()).collect()).unwrap_or_default();
+    let mut echo: Vec<u8> = s.upgrade.as_ref().map(|p| p.iter().map(|b| b.to_ascii_uppercase()).collect()).unwrap_or_default();
+    if s.greet && !s.greet_one_write && s.upgrade.is_some() {
+        let mut g = vl_model::svc::GREETING.to_vec();
+        g.extend_from_slice(&echo);
+        echo = g;
+    }
     let mut out = vec![];
     match s.mode {
         Mode::Resolver => {
@@ -323,7 +347,7 @@ pub fn run_session(w: &World, s: &Session) -> Result<Outcome, Fail> {
     };
     let mut reqs: Vec<Value> = s.syms.iter().enumerate().map(|(i, x)| request(*x, i)).collect();
     if s.upgrade.is_some() {
-        reqs.push(upgrade_request(reqs.len()));
+        reqs.push(upgrade_request(reqs.len(), s));
     }
     if s.slow_tail {
         reqs.push(slow_request(300));
@@ -557,8 +581,9 @@ fn session_strategy() -> impl Strategy<Value = Session> {
         prop::bool::weighted(0.3),
         prop::bool::weighted(0.5),
         prop::bool::weighted(0.12),
+        prop::bool::weighted(0.35),
     )
-        .prop_map(move |(mode, ix, pipelined, upgrade, payload_pipelined, close_early, spaced, slow_tail, hangup)| {
+        .prop_map(move |(mode, ix, pipelined, upgrade, payload_pipelined, close_early, spaced, slow_tail, hangup, greet)| {
             let mut syms: Vec<Sym> = ix.iter().map(|(a, b)| if mode == Mode::Resolver { ra[*a] } else { ca[*b] }).collect();
             if matches!(mode, Mode::Activate | Mode::InnerBridge) {
                 // another service instance lists its interfaces in another order: GetInfo bytes
@@ -574,7 +599,10 @@ fn session_strategy() -> impl Strategy<Value = Session> {
             let slow_tail = slow_tail && close_early;
             let hangup_while_waiting = hangup && !close_early;
             let upgrade = if hangup_while_waiting { None } else { upgrade };
-            let mut s = Session { mode, syms, pipelined, upgrade, payload_pipelined, close_early, spaced, slow_tail, hangup_while_waiting };
+            let greet = greet && upgrade.is_some();
+            // every other greeting session in resolver mode goes to the raw greeter
+            let greet_one_write = greet && mode == Mode::Resolver && ix.len() % 2 == 0;
+            let mut s = Session { mode, syms, pipelined, upgrade, payload_pipelined, close_early, spaced, slow_tail, hangup_while_waiting, greet, greet_one_write };
             if s.syms.is_empty() && s.upgrade.is_none() {
                 s.syms.push(Sym { kind: Kind::Echo, flag: Flag::None });
             }
@@ -655,6 +683,8 @@ pub fn run(args: &Args) -> ! {
                 spaced,
                 slow_tail: false,
                 hangup_while_waiting: false,
+                greet: false,
+                greet_one_write: false,
             };
             ctx.case(Some(hash64(&sess_json(&s).to_string())));
             ctx.class(&format!("fixed:{:?}{}", mode, if spaced { "(spaced-JSON service)" } else { "" }));
@@ -687,6 +717,12 @@ pub fn run(args: &Args) -> ! {
         }
         if s.hangup_while_waiting {
             ctx.class("full-hang-up-while-the-bridge-waits-for-a-reply");
+        }
+        if s.greet {
+            ctx.class("service-speaks-first-after-upgrade");
+        }
+        if s.greet_one_write {
+            ctx.class("greeting-in-one-write-with-the-upgrade-reply");
         }
         ctx.sample(|| sess_json(s));
         let t0 = Instant::now();
